@@ -703,6 +703,16 @@ func buildIntrinsics() map[string]*Native {
 					tc.And(tc.Or(tc.FEq(r, zero), tc.Eq(tc.FLt(r, zero), tc.FLt(x, zero))),
 						tc.Or(tc.Not(tc.Or(tc.FIsInf(y), tc.FLt(tc.FAbs(x), tc.FAbs(y)))), tc.FEq(r, x))))))
 		ip.W.addPC(ax1)
+		// exact on integer-valued operands below 2^63: fmod is exact in IEEE arithmetic and equals
+		// the integer remainder there
+		lim := ConstF64(9223372036854775808.0)
+		isInt := func(v *Term) *Term { return tc.FEq(v, tc.FRound(v, RTZ)) }
+		small := func(v *Term) *Term { return tc.And(tc.FLt(v, lim), tc.FLe(tc.FNeg(lim), v)) }
+		intCase := tc.And(tc.And(isInt(x), isInt(y)), tc.And(tc.And(small(x), small(y)), tc.Not(tc.FEq(y, zero))))
+		xi, yi := tc.FToSBV(x, SBV64), tc.FToSBV(y, SBV64)
+		ri := tc.SRem(xi, yi)
+		ax2 := tc.Or(tc.Not(intCase), tc.FEq(r, tc.FFromSBV(ri, SFP64)))
+		ip.W.addPC(ax2)
 		return r
 	})
 	reg("math.Pow10", func(ip *Interp, a []Value) Value {
